@@ -223,7 +223,7 @@ fn check() {
         }
     }
     let ex = stats.executions.load(Ordering::Relaxed);
-    if ex < 1000 || interleaved.load(Ordering::Relaxed) == 0 || stats.distinct.len() < 2 {
+    if chk.violation_count() == 0 && (ex < 1000 || interleaved.load(Ordering::Relaxed) == 0 || stats.distinct.len() < 2) {
         machinery(format!("vacuous: executions={ex} interleaved={} distinct={}", interleaved.load(Ordering::Relaxed), stats.distinct.len()));
     }
     let coverage = json!({
